@@ -146,6 +146,7 @@ func c10Pair[V univers.Version[V], VR univers.VersionRange[V]](e univers.Ecosyst
 	vv.Assume(ea == nil)
 	vb, eb := e.NewVersion(b)
 	vv.Assume(eb == nil)
+	vv.Reached()
 	vv.Assume(dpkgValid(a))
 	vv.Assume(dpkgValid(b))
 	vv.Assert(sign(va.Compare(vb)) == dpkgCompare(a, b), "C10: order differs from dpkg --compare-versions")
